@@ -114,6 +114,10 @@ R9(N) == [Base EXCEPT !.states = <<S1, S1, S1, S1, S1>>, !.controls = <<Sym1>>,
 \* RE:  a 2x1 vector state (x1, x2) declared before the scalar state x3:  x1' = x2, x2' = u, x3' = x1 + u
 RE(N) == [Base EXCEPT !.states = <<S1, S1, S1>>, !.controls = <<Sym1>>, !.xblocks = <<<<2, 1>>, <<1, 1>>>>,
                       !.rhs = <<X(2), U(1), Plus(X(1), U(1))>>]
+\* RF:  x' = u1 + 2 u2 + x   (two controls; the integrands u1^2 and u2^2 are two separate integral terms)
+RF(N) == [Base EXCEPT !.states = <<S1>>, !.controls = <<Sym1, Sym1>>,
+                      !.rhs = <<Plus(Plus(U(1), Times(CI(2), U(2))), X(1))>>,
+                      !.quads = <<Sq(U(1)), Sq(U(2))>>]      \* (the two integrands print alike: all controls are named u)
 \* R3v: R3 with the two states declared as one 2x1 vector state
 R3v(N) == [R3(N) EXCEPT !.xblocks = <<<<2, 1>>>>]
 
@@ -133,7 +137,7 @@ RC(N) == [Base EXCEPT !.states = <<S1>>, !.controls = <<Sym1>>,
 
 RhsIds == {"R1", "R2", "R3", "R4", "R5", "R7"}
 Rhs(id, N) == CASE id = "R1" -> R1(N) [] id = "R2" -> R2(N) [] id = "R3" -> R3(N)
-                [] id = "R4" -> R4(N) [] id = "R5" -> R5(N) [] id = "R7" -> R7(N) [] id = "R6" -> R6(N) [] id = "RD" -> RD(N) [] id = "R8" -> R8(N) [] id = "R9" -> R9(N) [] id = "RE" -> RE(N) [] id = "R3v" -> R3v(N) [] id = "RA" -> RA(N) [] id = "RB" -> RB(N) [] id = "RC" -> RC(N)
+                [] id = "R4" -> R4(N) [] id = "R5" -> R5(N) [] id = "R7" -> R7(N) [] id = "R6" -> R6(N) [] id = "RD" -> RD(N) [] id = "R8" -> R8(N) [] id = "R9" -> R9(N) [] id = "RE" -> RE(N) [] id = "RF" -> RF(N) [] id = "R3v" -> R3v(N) [] id = "RA" -> RA(N) [] id = "RB" -> RB(N) [] id = "RC" -> RC(N)
 
 (***************************************************************************)
 (* Path / boundary constraints (all well-formed for every rhs above:       *)
@@ -187,9 +191,10 @@ Q1 == Plus(Sq(X(1)), Times(U(1), Tm))                 \* integrand: nonlinear, t
 Q2 == Times(X(1), U(1))
 
 O9 == SumE(Times(Off(X(1), 1), U(1)))                 \* next() inside a sum: node k+1 for every interval k
+OB == IntQ(2)                                         \* integral of quads[2]
 ObjIds == {"o1", "o2", "o3", "o4", "o5", "o6", "o7", "o8", "o9"}
 ObjOf(id) == CASE id = "o1" -> O1 [] id = "o2" -> O2 [] id = "o3" -> O3 [] id = "o4" -> O4
-               [] id = "o5" -> O5 [] id = "o6" -> O6 [] id = "o7" -> O7 [] id = "o8" -> O8 [] id = "o9" -> O9
+               [] id = "o5" -> O5 [] id = "o6" -> O6 [] id = "o7" -> O7 [] id = "o8" -> O8 [] id = "o9" -> O9 [] id = "oB" -> OB
 
 RRead(tag, e, refine) == [tag |-> tag, kind |-> "refine", e |-> e, grid |-> "integrator", refine |-> refine]
 SRead(tag, e, tq) == [tag |-> tag, kind |-> "sampler", e |-> e, grid |-> "", refine |-> 0, tq |-> tq]
